@@ -31,6 +31,14 @@ theorem field_key_is_fold (seed : UInt64) (pieces : List (List UInt8)) :
     hashPieces seed pieces = pieces.foldl (fun h p => murmurRef p h) seed := by
   exact PV.Lemmas.Murmur.hashPieces_eq seed pieces
 
+/-- the case-model key used by train_case and apply_case is the documented nesting of the reference
+    function (one definition serves both tools in the model; the two call sites are tied to it by
+    running train_case's output through apply_case). -/
+theorem case_key_is_reference (source lowered : List UInt8) :
+    caseKey source lowered = murmurRef lowered (murmurRef source 0) := by
+  unfold caseKey
+  rw [hash_eq_reference, hash_eq_reference]
+
 -- non-vacuity / known-answer: MurmurHash64A("hello world, this is", seed 1)
 example : hash64A "hello world, this is".toUTF8.toList 1 = 13782079507294449509 := by decide +kernel
 
